@@ -1,9 +1,9 @@
 """Manifest metadata (tools/gen_manifest.py turns it into MANIFEST.json)."""
-HOOK_COMMITS = ['621a573']
+HOOK_COMMITS = ['621a573', '7ae3ccb']
 ENGINES = [
     dict(name='verus-extract', path='/verif/vlib', serves_properties=['C04', 'C05', 'C06', 'C08', 'C12', 'C14', 'C15', 'C17', 'C20'],
          kind_free_text='Verus 0.2026.09.13 on functions extracted mechanically from /repo on every run, contracts injected from /verif/units/<unit>/unit.rs'),
-    dict(name='kani-contracts', path='/verif/kani', serves_properties=['C01', 'C02', 'C03', 'C06', 'C10', 'C11', 'C15', 'C17', 'C19', 'C20'],
+    dict(name='kani-contracts', path='/verif/kani', serves_properties=['C01', 'C02', 'C03', 'C06', 'C10', 'C11', 'C15', 'C17', 'C18', 'C19', 'C20'],
          kind_free_text='Kani 0.68 function contracts (proof_for_contract) and loop-free full-domain harnesses on the real crates of /repo (path dependencies), CBMC 6.11'),
 ]
 NOTES = ('Contract-based deductive verification. exit 0 = all obligations discharged; exit 1 = VIOLATION; '
@@ -13,6 +13,12 @@ NOT_APPLICABLE = {
     'C13': 'bus state is BTreeMap+VecDeque behind Rc<RefCell> driven by std iterator closures: no Verus model, Kani measured >10 min for 2 outputs x 2 ops (DESIGN.md §7)',
 }
 CHECKS = {
+    'C18': dict(
+        engine='kani-contracts', category='model_checking',
+        technique='bounded Kani harnesses on the real Sinc interpolator (state observed through guarded read-only hooks)',
+        text='BOUNDED, PARTIAL: for depth 1..2 (3 in the thorough tier) and every number 0..=depth+2 of fed frames with symbolic finite contents: next_source_frame pushes exactly one frame and idx counts up to depth; interpolate performs no index underflow, out-of-range access or panic (x in {0, 0.5}; symbolic x in [0,1) in the thorough tier); reset restores idx = 0, first = 0 and all-equilibrium frames; Sinc::new rejects odd lengths. The numeric clauses of C18 (1e-12 transparency, linearity, finiteness, 1 % constant reproduction) are NOT decided.',
+        note='Numeric clauses out of reach: they depend on libm sin/cos, stubbed here by arbitrary values in [-1,1]. Bounded depth and history. Model checking, not proof.',
+    ),
     'C10': dict(
         engine='kani-contracts', category='model_checking',
         technique='Kani per-N harnesses on the real macro-generated conversions (pointer identity, bounds, CBMC memory-leak check) and bounded harnesses for the in-place operations',
